@@ -7,7 +7,7 @@ Open Scope nat_scope.
 
 Lemma Pret_step i s e : Pret i (gs s) -> Pret i (gs (step repaired s e)).
 Proof.
-  intros H. destruct e as [c|k|r|a|g|a|g en|g v hr er|g|k|c|c|c|c res|c]; try (refine (Pret_gtr i _ _ (gtr_step s _ _) H); intros; discriminate).
+  intros H. destruct e as [c|k|r|a|g|a|g en|g v hr er|g|k|c|c|c|c res|c|c]; try (refine (Pret_gtr i _ _ (gtr_step s _ _) H); intros; discriminate).
   cbn [step]. unfold resolver_return. destruct (nth_error (gs s) g) as [x|] eqn:Ex; [|exact H]. destruct (gpcv x) eqn:Ep; try exact H.
   destruct H as [y [Hy [A B]]]. assert (Hl : g < length (gs s)) by (eapply nth_error_nth_len; eauto). rewrite gs_setg.
   destruct (Nat.eq_dec i g) as [->|Hne].
